@@ -436,3 +436,63 @@ pub trait Perform {
     /// subsequent characters were ignored.
     fn esc_dispatch(&mut self, _intermediates: &[u8], _ignore: bool, _byte: u8) {}
 }
+
+/// Verification hooks: construct / observe an arbitrary parser state
+#[cfg(any(kani, rust_cli_anstyle_verif))]
+#[doc(hidden)]
+#[allow(clippy::exhaustive_structs)]
+#[derive(Clone, Debug)]
+pub struct VerifParts<'a, C> {
+    pub state: State,
+    pub intermediates: [u8; MAX_INTERMEDIATES],
+    pub intermediate_idx: usize,
+    pub params: Params,
+    pub param: u16,
+    pub osc_raw: &'a [u8],
+    pub osc_params: [(usize, usize); MAX_OSC_PARAMS],
+    pub osc_num_params: usize,
+    pub ignoring: bool,
+    pub utf8_parser: C,
+}
+
+#[cfg(any(kani, rust_cli_anstyle_verif))]
+impl<C> Parser<C>
+where
+    C: CharAccumulator + Clone,
+{
+    #[doc(hidden)]
+    pub fn verif_from_parts(parts: VerifParts<'_, C>) -> Self {
+        let mut osc_raw: _ = Self::default().osc_raw;
+        for b in parts.osc_raw {
+            osc_raw.push(*b);
+        }
+        Self {
+            state: parts.state,
+            intermediates: parts.intermediates,
+            intermediate_idx: parts.intermediate_idx,
+            params: parts.params,
+            param: parts.param,
+            osc_raw,
+            osc_params: parts.osc_params,
+            osc_num_params: parts.osc_num_params,
+            ignoring: parts.ignoring,
+            utf8_parser: parts.utf8_parser,
+        }
+    }
+
+    #[doc(hidden)]
+    pub fn verif_parts(&self) -> VerifParts<'_, C> {
+        VerifParts {
+            state: self.state,
+            intermediates: self.intermediates,
+            intermediate_idx: self.intermediate_idx,
+            params: self.params.clone(),
+            param: self.param,
+            osc_raw: &self.osc_raw,
+            osc_params: self.osc_params,
+            osc_num_params: self.osc_num_params,
+            ignoring: self.ignoring,
+            utf8_parser: self.utf8_parser.clone(),
+        }
+    }
+}
